@@ -237,7 +237,7 @@ def install(E):
         st.notes.append(E.cstring(st, P_(E, st, a[0]))); return 0
     @reg('symx_fault_alloc')
     def _fault_alloc(E, st, fr, a, d):
-        st.fault_alloc = bool(a[0]); return 0
+        st.fault_alloc = int(a[0]) if type(a[0]) is int else 1; return 0      # n > 1: up to n failing allocations per path
     @reg('symx_fault_io')
     def _fault_io(E, st, fr, a, d):
         st.env = dict(st.env); st.env['io_fault'] = int(a[0]); return 0
@@ -604,6 +604,9 @@ def install(E):
         return 1
     @reg('__kmpc_critical', '__kmpc_critical_with_hint')
     def _crit(E, st, fr, a, d):
+        # acquiring a lock is a scheduling point: the other modelled worker may get the critical section first (the ORDER in which
+        # workers pass through critical sections is part of the schedule; no effect without symx_omp_threads)
+        if st.threads is not None and not st.env.get('in_critical'): E.preempt_point(st)
         st.env = dict(st.env); st.env['in_critical'] = st.env.get('in_critical', 0) + 1; return 0
     @reg('__kmpc_end_critical')
     def _ecrit(E, st, fr, a, d):
